@@ -362,6 +362,11 @@ def _compare(req, o: dict, call: dict, supplied: dict, body, schemas: dict) -> l
     for key, (p, v) in supplied.items():
         if p["in"] == "cookie" and unquote(got_c.get(p["name"], "\x00")) != wire_text(v):
             viols.append(Violation(("cookie_param_dropped",), f"{p['name']}: expected {wire_text(v)!r}, Cookie header {cookie_hdr!r}"))
+    # nothing the caller did not supply: neither a declared cookie parameter left unset nor a cookie of an EARLIER call on this client
+    supplied_cookie_names = {p["name"] for key, (p, v) in supplied.items() if p["in"] == "cookie"}
+    stray = sorted(n for n in got_c if n not in supplied_cookie_names)
+    if stray:
+        viols.append(Violation(("cookie_unsupplied_present",), f"{call['method']} {o['path']}: Cookie header {cookie_hdr!r} carries {stray} although only {sorted(supplied_cookie_names)} were supplied"))
     # body
     if body is not None:
         media = body["media"]
